@@ -17,10 +17,14 @@ namespace Tins.Wire
 
 /-- C01 facts of one family over its interface -/
 structure FamParse {Obj : Type} (classes : List String) (parse : String → Bytes → Out (Obj × Inner))
-    (ObjInv : Obj → Prop) : Prop where
+    (info : Obj → String × Fields) (ObjInv Ser : Obj → Prop) : Prop where
   safe : ∀ cls b, cls ∈ classes → ParseSafe (parse cls b)
   consumes : ∀ cls b o name pb fb, cls ∈ classes → parse cls b = .ok (o, .cls name pb fb) → pb.length < b.length
   inv : ∀ cls b o i, cls ∈ classes → parse cls b = .ok (o, i) → ObjInv o
+  /-- what the constructor builds from a buffer a `uint32_t` can measure is serializable, unless it is one of the two
+      capture pseudo-headers documented as not serializable -/
+  ser : ∀ cls b o i, cls ∈ classes → b.length < 4294967296 → parse cls b = .ok (o, i) →
+    (info o).1 ≠ "PPI" → (info o).1 ≠ "PKTAP" → Ser o
 
 /-- C02 fact of one family over its interface -/
 def FamWrite {Obj : Type} (ObjInv Serializable : Obj → Prop) (info : Obj → String × Fields) (hdr : Obj → Nat)
@@ -58,13 +62,13 @@ def Preds.Ser (P : Preds) : AnyObj → Prop
   | .tr o => P.trSer o | .app o => P.appSer o | .wifi o => P.wifiSer o
 
 structure ParseFacts (P : Preds) : Prop where
-  l2 : FamParse L2.classes L2.parse P.l2Inv
-  ip : FamParse Ip.classes Ip.parse P.ipInv
-  ip6 : FamParse Ip6.classes Ip6.parse P.ip6Inv
-  icmp : FamParse Icmp.classes Icmp.parse P.icmpInv
-  tr : FamParse Transport.classes Transport.parse P.trInv
-  app : FamParse App.classes App.parse P.appInv
-  wifi : FamParse Wifi.classes Wifi.parse P.wifiInv
+  l2 : FamParse L2.classes L2.parse L2.info P.l2Inv P.l2Ser
+  ip : FamParse Ip.classes Ip.parse Ip.info P.ipInv P.ipSer
+  ip6 : FamParse Ip6.classes Ip6.parse Ip6.info P.ip6Inv P.ip6Ser
+  icmp : FamParse Icmp.classes Icmp.parse Icmp.info P.icmpInv P.icmpSer
+  tr : FamParse Transport.classes Transport.parse Transport.info P.trInv P.trSer
+  app : FamParse App.classes App.parse App.info P.appInv P.appSer
+  wifi : FamParse Wifi.classes Wifi.parse Wifi.info P.wifiInv P.wifiSer
 
 structure WriteFacts (P : Preds) : Prop where
   l2 : FamWrite P.l2Inv P.l2Ser L2.info L2.hdr L2.trl L2.write
@@ -174,28 +178,38 @@ theorem classesSafe_of {P : Preds} (F : ParseFacts P) : ClassesSafe where
     · exact F.app.consumes cls b x name pb fb hc hx
     · exact F.wifi.consumes cls b x name pb fb hc hx
 
-/-- parsing one layer establishes its family's invariant -/
-theorem parseOne_inv {P : Preds} (F : ParseFacts P) (cls : String) (b : Bytes) (o : AnyObj) (i : Inner)
-    (h : parseOne cls b = .ok (o, i)) : P.Inv o := by
+/-- not one of the two capture pseudo-headers (PPI, PKTAP), which libtins documents as not serializable -/
+def NotPseudo (o : AnyObj) : Prop := o.info.1 ≠ "PPI" ∧ o.info.1 ≠ "PKTAP"
+
+/-- what parsing establishes for a layer: its invariant, and serializability unless it is a capture pseudo-header -/
+def Preds.Good (P : Preds) (o : AnyObj) : Prop := P.Inv o ∧ (NotPseudo o → P.Ser o)
+
+/-- parsing one layer establishes its family's invariant (and serializability, see `Preds.Good`) -/
+theorem parseOne_good {P : Preds} (F : ParseFacts P) (cls : String) (b : Bytes) (o : AnyObj) (i : Inner)
+    (hb : b.length < 4294967296) (h : parseOne cls b = .ok (o, i)) : P.Good o := by
   rcases parseOne_cases cls b o i h with ⟨_, ho, _⟩ | ⟨x, hc, hx, ho⟩ | ⟨x, hc, hx, ho⟩ | ⟨x, hc, hx, ho⟩ | ⟨x, hc, hx, ho⟩ |
     ⟨x, hc, hx, ho⟩ | ⟨x, hc, hx, ho⟩ | ⟨x, hc, hx, ho⟩ <;> subst ho
-  · trivial
-  · exact F.l2.inv cls b x i hc hx
-  · exact F.ip.inv cls b x i hc hx
-  · exact F.ip6.inv cls b x i hc hx
-  · exact F.icmp.inv cls b x i hc hx
-  · exact F.tr.inv cls b x i hc hx
-  · exact F.app.inv cls b x i hc hx
-  · exact F.wifi.inv cls b x i hc hx
+  · exact ⟨trivial, fun _ => trivial⟩
+  · exact ⟨F.l2.inv cls b x i hc hx, fun hn => F.l2.ser cls b x i hc hb hx hn.1 hn.2⟩
+  · exact ⟨F.ip.inv cls b x i hc hx, fun hn => F.ip.ser cls b x i hc hb hx hn.1 hn.2⟩
+  · exact ⟨F.ip6.inv cls b x i hc hx, fun hn => F.ip6.ser cls b x i hc hb hx hn.1 hn.2⟩
+  · exact ⟨F.icmp.inv cls b x i hc hx, fun hn => F.icmp.ser cls b x i hc hb hx hn.1 hn.2⟩
+  · exact ⟨F.tr.inv cls b x i hc hx, fun hn => F.tr.ser cls b x i hc hb hx hn.1 hn.2⟩
+  · exact ⟨F.app.inv cls b x i hc hx, fun hn => F.app.ser cls b x i hc hb hx hn.1 hn.2⟩
+  · exact ⟨F.wifi.inv cls b x i hc hx, fun hn => F.wifi.ser cls b x i hc hb hx hn.1 hn.2⟩
 
-/-- **every layer of a parsed chain satisfies its invariant** (any depth, any mix of families) -/
-theorem parseChain_good {P : Preds} (F : ParseFacts P) :
-    ∀ (fuel : Nat) (cls : String) (b : Bytes) (os : List AnyObj), parseChain fuel cls b = .ok os → ∀ o ∈ os, P.Inv o := by
+theorem good_raw {P : Preds} (pb : Bytes) : P.Good (.raw pb) := ⟨trivial, fun _ => trivial⟩
+
+/-- **every layer of a parsed chain satisfies its invariant and is serializable unless it is a capture pseudo-header**
+    (any depth, any mix of families; the buffer length fits the `uint32_t` the constructors take) -/
+theorem parseChain_good {P : Preds} (F : ParseFacts P) (hcs : ClassesSafe) :
+    ∀ (fuel : Nat) (cls : String) (b : Bytes) (os : List AnyObj), b.length < 4294967296 →
+      parseChain fuel cls b = .ok os → ∀ o ∈ os, P.Good o := by
   intro fuel
   induction fuel with
-  | zero => intro cls b os h; simp [parseChain] at h
+  | zero => intro cls b os _ h; simp [parseChain] at h
   | succ fuel ih =>
-    intro cls b os h
+    intro cls b os hb h
     unfold parseChain at h
     split at h
     · cases h
@@ -205,7 +219,7 @@ theorem parseChain_good {P : Preds} (F : ParseFacts P) :
       | fault s => cases h
       | ok p =>
         obtain ⟨o, inner⟩ := p
-        have ho := parseOne_inv F cls b o inner hp
+        have ho := parseOne_good F cls b o inner hb hp
         cases inner with
         | none =>
           simp only at h; injection h with h; subst h
@@ -216,8 +230,9 @@ theorem parseChain_good {P : Preds} (F : ParseFacts P) :
           simp only [List.mem_cons, List.mem_nil_iff, or_false] at hx
           rcases hx with hx | hx <;> subst hx
           · exact ho
-          · trivial
+          · exact good_raw pb
         | cls name pb fb =>
+          have hlt := hcs.consumes cls b o name pb fb hp
           simp only at h
           generalize hr : parseChain fuel name pb = r at h
           cases r with
@@ -227,7 +242,7 @@ theorem parseChain_good {P : Preds} (F : ParseFacts P) :
             simp only [List.mem_cons] at hx
             rcases hx with hx | hx
             · subst hx; exact ho
-            · exact ih name pb ls hr x hx
+            · exact ih name pb ls (by omega) hr x hx
           | unmodelled c => cases h
           | fault s => cases h
           | throw e =>
@@ -238,7 +253,7 @@ theorem parseChain_good {P : Preds} (F : ParseFacts P) :
               simp only [List.mem_cons, List.mem_nil_iff, or_false] at hx
               rcases hx with hx | hx <;> subst hx
               · exact ho
-              · trivial
+              · exact good_raw pb
             · cases h
 
 /-- a header-only layer: `write` replaces the first `n` bytes by `hb` (`hb.length = n`) -/
